@@ -36,6 +36,13 @@ class ConclusionSelector(LogicalOperator, ABC):
             self._conclusion_.update(conclusions)
             self.concluded_before[not self._is_false_].add(required_output)
 
+    def _reset_only_my_cache_(self) -> None:
+        super()._reset_only_my_cache_()
+        # both are filled while an evaluation runs: which conclusion combinations were produced so far, and the
+        # conclusions selected for the row being produced (left behind when the evaluation is abandoned at that row).
+        self.concluded_before = {True: SeenSet(), False: SeenSet()}
+        self._conclusion_.clear()
+
     def _copy_expression_(self, postfix: str) -> SymbolicExpression:
         cp = super()._copy_expression_(postfix)
         cp.concluded_before = {True: SeenSet(), False: SeenSet()}
